@@ -562,9 +562,11 @@ def oracle(case, ires, sres):
             if not err or code not in (1, 2, 3):
                 return ("C14/CdsShortTimestamp.unpack/refusal", "short input or wrong P-field not refused with ValueError: %s -> %s" % (b[:8], ires))
             return None
-        if err:
-            return ("C14/CdsShortTimestamp.unpack/refuses-valid", "%s -> %s" % (b[:7], ires))
         d, ms = b[1] * 256 + b[2], ((b[3] * 256 + b[4]) * 256 + b[5]) * 256 + b[6]
+        if err:
+            if ms >= MSPD and code in (1, 2, 3):
+                return None     # a millisecond field no day has (the unchanged decoder hands it on): may be refused
+            return ("C14/CdsShortTimestamp.unpack/refuses-valid", "%s -> %s" % (b[:7], ires))
         if op == 412:
             if ires[1] != [0x40] + b[1:7]:
                 return ("C14/CdsShortTimestamp.unpack-pack/roundtrip", "%s -> %s" % (b[:7], ires))
@@ -660,6 +662,8 @@ def oracle(case, ires, sres):
         return None
     if op == 410:
         ud, ms = a[0]
+        if err and code in (1, 2, 3) and not ts_valid([ud + 4383, ms]):
+            return None         # a day count outside 0..65535: the unchanged constructor stores it and pack() fails; may be refused
         if err or ires[1] != [ud + 4383, ms] or ires[2] != [ud + 4383, ud - 4383]:
             return ("C14/convert_days", "%s -> %s" % (a[0], ires))
         return None
@@ -689,6 +693,8 @@ def _oracle_live(a, ires):
             return ("C14/CdsShortTimestamp.unpack/refusal", "short input or wrong P-field not refused with ValueError: %s -> %s" % (make[1:9], ires))
         return None
     if err:
+        if ires[0][1] in (1, 2, 3) and make[0] in (0, 1, 4, 5) and not ts_valid(list(_made_fields(make))):
+            return None         # fields outside day 0..65535 / millisecond 0..86399999: stored by the unchanged constructor, may be refused
         return ("C14/CdsShortTimestamp.__init__/refuses-valid", "construction %s raised %s" % (make, ires))
     ops = a[1:]
     if len(ires) != 1 + 3 + 4 * len(ops):
@@ -722,6 +728,12 @@ def _oracle_live(a, ires):
                 if obs != prev:
                     return ("C14/CdsShortTimestamp.read_from_raw/refused-but-changed", "step %d: the refused %s changed the object from %s to %s" % (i, name, prev, obs))
             else:
+                if rerr and r[1] in (1, 2, 3) and ((b[3] * 256 + b[4]) * 256 + b[5]) * 256 + b[6] >= MSPD:
+                    # a millisecond field no day has: the unchanged decoder stores it; refused instead, the object is as it was
+                    if obs != prev:
+                        return ("C14/CdsShortTimestamp.read_from_raw/refused-but-changed", "step %d: the refused %s changed the object from %s to %s" % (i, name, prev, obs))
+                    prev = obs
+                    continue
                 if rerr:
                     return ("C14/CdsShortTimestamp.read_from_raw/refuses-valid", "step %d: %s of %s -> %s" % (i, name, b[:7], r))
                 cur = [b[1] * 256 + b[2], ((b[3] * 256 + b[4]) * 256 + b[5]) * 256 + b[6]]
